@@ -196,7 +196,7 @@ fn reloc_bound(act: &Act, len: usize, contiguous_before: bool) -> Option<usize> 
         | Get(_) | NthFront(_) | NthBack(_) | Front | Back | Index(_) | AsSlices | AsMutSlices => Some(2),
         WriteVia(acc, _) if acc != Acc::MakeContig => Some(2),
         Remove(i) => Some(if i < len { len - i } else { 0 }),
-        Drain(rs, _, Fin::Drop) | DrainDebug(rs, _) => rs.resolve(len).ok().map(|(_, b)| len - b),
+        Drain(rs, _, Fin::Drop) | DrainDebug(rs, _) | StepsOn(5, rs, _) => rs.resolve(len).ok().map(|(_, b)| len - b),
         MakeContiguous if contiguous_before => Some(0),
         _ => None,
     }
@@ -422,6 +422,16 @@ pub fn bfs_check<const N: usize>(prop: &str, o: &Opts, rep: &mut Report) {
                     }
                 }
                 probes.extend([Act::ToVec, Act::CloneBuf, Act::EqSelfClone, Act::EqSlice]);
+                // owning iterators and drains driven through nth / nth_back as well: skipped elements
+                // must be destroyed exactly once, too
+                probes.extend(steps_probes(N, st.len, &[4, 5], 3));
+                for a in 0..=st.len.min(2) {
+                    for mm in 0..=N.min(6) {
+                        for b in 0..=mm.min(2) {
+                            probes.push(Act::IntoIterCloneFrom(a, mm, b));
+                        }
+                    }
+                }
                 // ranges the documentation rejects: if one is accepted after all, ownership must still hold
                 for rs in all_ranges(N) {
                     if rs.resolve(st.len).is_err() {
@@ -442,7 +452,10 @@ pub fn bfs_check<const N: usize>(prop: &str, o: &Opts, rep: &mut Report) {
                 }
                 for rs in all_ranges(N) {
                     probes.push(Act::DrainDebug(rs, Script::all_back(1)));
+                    probes.push(Act::DrainDebug(rs, Script::empty()));
                 }
+                probes.extend(steps_probes(N, st.len, &[0, 1, 2, 3, 4, 5], 1));
+                probes.push(Act::IntoIterCloneFrom(0, N.min(2), 1));
                 probes.push(Act::DropBuf);
             }
             "C17" | "C20" => {
